@@ -242,6 +242,10 @@ pub fn draw_big(rng: &mut Rng, thorough: bool) -> (String, Pd) {
         ("T(4,5)#3_1".into(), connected_sum(&torus(4, 5, 1), &table("3_1"))),
         ("T(4,5)#T(2,5)".into(), connected_sum(&torus(4, 5, 1), &torus(2, 5, 1))),
         ("T(4,4)".into(), torus(4, 4, 1)),
+        // thick non-torus closures: wide layers (>= 64 vertex pairs per gluing step, hundreds of
+        // vertices at elimination time) at 12 crossings
+        ("b4(1,-2,3)^4".into(), braid_closure(4, &[1, -2, 3, 1, -2, 3, 1, -2, 3, 1, -2, 3]).expect("valid")),
+        ("b3(1,-2)^6".into(), braid_closure(3, &[1, -2, 1, -2, 1, -2, 1, -2, 1, -2, 1, -2]).expect("valid")),
     ];
     if thorough {
         menu.push(("T(5,6)".into(), torus(5, 6, 1)));
